@@ -102,7 +102,8 @@ Lemma shutdown_conn_spec m c sd :
   MI m →
   ∃ m', shutdown_conn m c sd = Done m' ∧ MI m' ∧
     conns (ms m') = delete c (conns (ms m)) ∧ objs (ms m') ⊆ objs (ms m) ∧
-    (∀ k, is_Some (svcs (ms m') !! k) → is_Some (svcs (ms m) !! k)).
+    (∀ k, is_Some (svcs (ms m') !! k) → is_Some (svcs (ms m) !! k)) ∧
+    (∀ u o, objs (ms m) !! u = Some o → o_owner o ≠ c → objs (ms m') !! u = Some o).
 Proof.
   intros H. unfold shutdown_conn. destruct (conns (ms m) !! c) as [cs|] eqn:Ec.
   2:{ exists m. split; [done|]. split; [done|]. rewrite delete_notin by done. done. }
@@ -123,7 +124,7 @@ Proof.
   assert (MX X0 m2 ∧ blank_lis (ms m2) = blank_lis (ms m1) ∧ mw m2 = mw m1 ∧
           own_lis (X0 ∖ {[c]}) (listeners (ms m2))) as (H2 & B2 & W2 & L2)
     by exact (sd_listeners X0 c m1 H1).
-  destruct (sd_objects X0 c m2 H2) as (m3 & Hf3 & H3 & B3 & W3 & C3 & O3 & S3 & L3).
+  destruct (sd_objects X0 c m2 H2) as (m3 & Hf3 & H3 & B3 & W3 & C3 & O3 & S3 & L3 & K3).
   rewrite Hf3. cbn [andThen].
   match goal with |- context [foldO ?f ?l m3] => change f with (sd_ev_body c) end.
   destruct (sd_events X0 c m3 H3) as (m4 & Hf4 & H4 & B4 & Q4 & W4 & D4 & L4).
@@ -160,7 +161,9 @@ Proof.
   { rewrite W8, W7. subst m6. cbn. rewrite W5, W4, W3, W2. destruct Hq1 as (_ & _ & ->). done. }
   assert (objs (ms m3) ⊆ objs (ms m)) as EOs.
   { etrans; [exact O3|]. rw_fields B2. destruct Hq1 as (-> & _). done. }
-  split; [|split; [cbn; rewrite A1; exact EC|split; [cbn; rewrite A1, EO; exact EOs|]]].
+  split; [|split; [cbn; rewrite A1; exact EC|split; [cbn; rewrite A1, EO; exact EOs|split]]].
+  3:{ cbn. rewrite A1, EO. intros u o Hu Hoc. apply K3; [|done]. rw_fields B2.
+      destruct Hq1 as (Hq1 & _). rewrite Hq1. exact Hu. }
   2:{ cbn. rewrite A1, ES. subst m6. cbn. intros k Hk. rewrite lookup_fmap in Hk. apply fmap_is_Some in Hk.
       apply D5, D4 in Hk. apply (lookup_weaken_is_Some _ _ _ Hk) in S3. rw_fields_in B2 S3.
       destruct Hq1 as (Hq1 & _). rewrite Hq1 in S3. exact S3. }
